@@ -1,8 +1,10 @@
 package env
 
 import (
+	"context"
 	"os"
 	"path/filepath"
+	"sync"
 )
 
 // Halt stops the store without reopening it (the data directory is then edited by the crash driver
@@ -14,6 +16,43 @@ func (e *Env) Halt() {
 
 // Reopen loads a new store over the (possibly edited) data directory.
 func (e *Env) Reopen() error { return e.open() }
+
+// pollCtx is alive until its Done channel has been asked for `after` times (Active.Replay polls it once per meta block):
+// the stop signal of an operator arriving while the store replays its active fraction.
+type pollCtx struct {
+	context.Context
+	mu    sync.Mutex
+	after int
+	done  chan struct{}
+	fired bool
+}
+
+func PollCtx(after int) context.Context {
+	return &pollCtx{Context: context.Background(), after: after, done: make(chan struct{})}
+}
+
+func (c *pollCtx) Done() <-chan struct{} {
+	c.mu.Lock()
+	defer c.mu.Unlock()
+	if !c.fired {
+		if c.after <= 0 {
+			c.fired = true
+			close(c.done)
+		} else {
+			c.after--
+		}
+	}
+	return c.done
+}
+
+func (c *pollCtx) Err() error {
+	c.mu.Lock()
+	defer c.mu.Unlock()
+	if c.fired {
+		return context.Canceled
+	}
+	return nil
+}
 
 // ActiveBase returns the path prefix of the current active fraction's files.
 func (e *Env) ActiveBase() string {
